@@ -322,6 +322,8 @@ class Schema(dict, metaclass=LogicalMeta):
                 f"Attempt to set immutable attribute: [{repr(field.attname)}]"
             )
 
+        # an assignment may be the first use of this declaration
+        self.__parser__.resolve_forward_refs()
         context = self.__options__.make_context(force_error=True)
         value = field.parse_value(value, context=context)
 
@@ -401,6 +403,7 @@ class Schema(dict, metaclass=LogicalMeta):
                 raise exc.UpdateError(
                     f"{self.__class__}: Attempt to set excluded attribute: {repr(alias)}"
                 )
+            self.__parser__.resolve_forward_refs()
             context = self.__options__.make_context(force_error=True)
             addition = self.__parser__.parse_addition(alias, value, context=context)
             if unprovided(addition):
